@@ -24,7 +24,7 @@ def run(ctx):
     ctx.driver_path = ctx.driver()
     broken = ctx.audit(THEOREMS)
     rng = ctx.rng
-    g = R.Gen(rng, T)
+    g = R.Gen(rng, T, profile_extras=True)
     n = 6000 if ctx.tier == 'quick' else 150000
 
     # ---- T2: compare on pairs, cmpstr on strings ------------------------------------------------
@@ -104,6 +104,22 @@ def run(ctx):
             ls = [g.letter(r['f'][1]) != '' for r in (x, y, z)]
             if len(set(ls)) > 1:
                 continue            # K_filePrefixCycle: mixed known/unknown prefixes
+        tri.append((x, y, z))
+        for a, b in ((x, y), (y, z), (x, z), (y, x), (z, y), (z, x)):
+            tri_ops.append('%s\t%s' % (R.enc(a), R.enc(b)))
+    # file rules that differ in their path only: paths from the pool and from the boundary of the prefix table
+    # (an entry itself, an entry followed by a glob or an alternation), all with or all without a known prefix
+    pool = [p for p in R.CANON_STR if p.startswith('/') or p.startswith('@{')]
+    pool += [e + suf for e in g.file_alpha if e.startswith('/') for suf in ('', '{,/**}', '*', '{,/}', '/x')]
+    for _ in range(n // 6):
+        ps = rng.sample(pool, 3)
+        known = [g.letter(p) != '' for p in ps]
+        if len(set(known)) > 1 or not all(g.canon_str(p) for p in ps):
+            continue
+        base = g.rule('file')
+        x, y, z = (dict(base, f=[base['f'][0], p, base['f'][2], base['f'][3]], comment='') for p in ps)
+        if not (g.canon(x)):
+            continue
         tri.append((x, y, z))
         for a, b in ((x, y), (y, z), (x, z), (y, x), (z, y), (z, x)):
             tri_ops.append('%s\t%s' % (R.enc(a), R.enc(b)))
